@@ -56,3 +56,32 @@ inline auto bulk_sender() { return unifex::bulk_transform(throwing_bulk_source{}
 static_assert(!unifex::is_nothrow_connectable_v<decltype(bulk_sender()), solid_receiver>,
               "W-NOEXCEPT connect(bulk_transform(src, f, policy), r) connects src: it must not be noexcept when src's connect can throw");
 }  // namespace vp
+
+// ---- the receiver CPOs themselves report the noexcept-ness of the customisation they dispatch to (member or tag_invoke).
+// bulk_schedule / bulk_transform / find_if decide from is_nothrow_next_receiver_v whether to wrap the per-index call in a
+// try block; a CPO that claims noexcept for a throwing set_next turns "deliver set_error after k indices" into terminate.
+namespace vp {
+struct throwing_member_receiver {
+  template <typename... V> void set_value(V&&...) && noexcept(false) {}
+  template <typename E> void set_error(E&&) && noexcept {}
+  void set_done() && noexcept {}
+  void set_next(int) & noexcept(false) {}
+};
+struct throwing_tag_receiver {
+  template <typename E> void set_error(E&&) && noexcept {}
+  void set_done() && noexcept {}
+  friend void tag_invoke(unifex::tag_t<unifex::set_value>, throwing_tag_receiver&&, int) noexcept(false) {}
+};
+static_assert(!noexcept(unifex::set_next(std::declval<throwing_member_receiver&>(), 0)),
+              "W-NOEXCEPT set_next(r, i) dispatching to a member set_next that can throw must not be noexcept");
+static_assert(!unifex::is_nothrow_next_receiver_v<throwing_member_receiver, int>,
+              "W-NOEXCEPT is_nothrow_next_receiver_v must be false for a receiver whose member set_next can throw");
+static_assert(!noexcept(unifex::set_value(std::declval<throwing_member_receiver&&>(), 0)),
+              "W-NOEXCEPT set_value(r, v) dispatching to a member set_value that can throw must not be noexcept");
+static_assert(!noexcept(unifex::set_value(std::declval<throwing_tag_receiver&&>(), 0)),
+              "W-NOEXCEPT set_value(r, v) dispatching to a tag_invoke customisation that can throw must not be noexcept");
+static_assert(!unifex::is_nothrow_receiver_of_v<throwing_member_receiver, int>,
+              "W-NOEXCEPT is_nothrow_receiver_of_v must be false for a receiver whose member set_value can throw");
+static_assert(!unifex::is_nothrow_receiver_of_v<throwing_tag_receiver, int>,
+              "W-NOEXCEPT is_nothrow_receiver_of_v must be false for a receiver whose tag_invoke set_value can throw");
+}  // namespace vp
